@@ -118,6 +118,36 @@ Definition bits_val (bv : wid -> nat -> bool) (w : wid) (n : nat) : Z :=
 Definition updbits (bv : wid -> nat -> bool) (w : wid) (l : list bool) : wid -> nat -> bool :=
   fun w' i => if w' =? w then nth i l false else bv w' i.
 
+(* the values of the bits of wire w under bv *)
+Definition vbits (bv : wid -> nat -> bool) (w : wid) : list bool := map (bv w) (seq 0 (wnat w)).
+
+(* Denotation of `lower n` under bv: the SAME generators at the bool instance,
+   applied to the values of the argument bits.  (geval bv commutes with every
+   gate-algebra operation, so map (geval bv) (lower n) = lower_val bv n; the
+   executable semantics uses this form because gate expressions are trees and
+   re-evaluate shared carries exponentially often.) *)
+Definition lower_val (bv : wid -> nat -> bool) (n : net) : list bool :=
+  let wd := wnat (ndest n) in
+  let a0 := vbits bv (arg n 0) in
+  let a1 := vbits bv (arg n 1) in
+  let a2 := vbits bv (arg n 2) in
+  match nop n with
+  | OpW | OpNot =>
+      firstn wd (opt_list (map (g_decompose1 balg (nop n)) a0) false)
+  | OpAnd | OpOr | OpXor | OpNand =>
+      firstn wd (opt_list (map2 (g_decompose2 balg (nop n)) a0 a1) false)
+  | OpSelect idx => firstn wd (map (fun k => bv (arg n 0) (Z.to_nat k)) idx)
+  | OpConcat => firstn wd (flat_map (vbits bv) (rev (nargs n)))
+  | OpAdd => fit balg wd (basic_add balg a0 a1)
+  | OpSub => fit balg wd (basic_sub balg a0 a1)
+  | OpMul => fit balg wd (basic_mult balg a0 a1)
+  | OpLt => fit balg wd (basic_lt balg a0 a1)
+  | OpGt => fit balg wd (basic_gt balg a0 a1)
+  | OpEq => fit balg wd (basic_eq balg a0 a1)
+  | OpMux => fit balg wd (basic_select balg (bv (arg n 0) O) a1 a2)
+  | _ => []
+  end.
+
 Definition gmem_read (ms : Z -> Z -> Z) (m a : Z) : Z :=
   match find_mem (mems nl) m with
   | Some mm => match mrom mm with Some data => rom_read data a | None => ms m a end
@@ -137,38 +167,43 @@ Definition gbase (st : gstate) (ins : wid -> Z) : wid -> nat -> bool :=
              | None => false
              end.
 
-Definition gexec (st : gstate) (bv : wid -> nat -> bool) (g : gnet) : wid -> nat -> bool :=
-  match g with
-  | GAssign w bits => updbits bv w (map (geval bv) bits)
-  | GMemRd m w n a na => updbits bv w (of_Z n (gmem_read (gmems st) m (bits_val bv a na)))
-  | _ => bv
+(* one original net = its group of synthesized gates / registers / port *)
+Definition gexec (st : gstate) (bv : wid -> nat -> bool) (n : net) : wid -> nat -> bool :=
+  match nop n with
+  | OpReg | OpMemWr _ => bv
+  | OpMemRd m =>
+      updbits bv (ndest n)
+        (of_Z (wnat (ndest n)) (gmem_read (gmems st) m (bits_val bv (arg n 0) (wnat (arg n 0)))))
+  | _ => updbits bv (ndest n) (lower_val bv n)
   end.
 
-Definition gwrite (bv : wid -> nat -> bool) (ms : Z -> Z -> Z) (g : gnet) : Z -> Z -> Z :=
-  match g with
-  | GMemWr m a na d nd en =>
-      if bv en O then upd ms m (upd (ms m) (bits_val bv a na) (bits_val bv d nd)) else ms
+Definition gwrite (bv : wid -> nat -> bool) (ms : Z -> Z -> Z) (n : net) : Z -> Z -> Z :=
+  match nop n with
+  | OpMemWr m =>
+      if bv (arg n 2) O
+      then upd ms m (upd (ms m) (bits_val bv (arg n 0) (wnat (arg n 0)))
+                                (bits_val bv (arg n 1) (wnat (arg n 1))))
+      else ms
   | _ => ms
   end.
 
-Definition gregnext (bv : wid -> nat -> bool) (rg : wid -> nat -> bool) (g : gnet) : wid -> nat -> bool :=
-  match g with
-  | GReg w n src => fun w' i => if (w' =? w) && Nat.ltb i n then bv src i else rg w' i
+Definition gregnext (bv : wid -> nat -> bool) (rg : wid -> nat -> bool) (n : net) : wid -> nat -> bool :=
+  match nop n with
+  | OpReg => fun w' i => if (w' =? ndest n) && Nat.ltb i (wnat (ndest n)) then bv (arg n 0) i else rg w' i
   | _ => rg
   end.
 
-Definition gstep (gs : list gnet) (st : gstate) (ins : wid -> Z) : (wid -> nat -> bool) * gstate :=
-  let bv := fold_left (gexec st) gs (gbase st ins) in
-  (bv, {| gregs := fold_left (gregnext bv) gs (gregs st);
-          gmems := fold_left (gwrite bv) gs (gmems st) |}).
+Definition gstep (st : gstate) (ins : wid -> Z) : (wid -> nat -> bool) * gstate :=
+  let bv := fold_left (gexec st) (nets nl) (gbase st ins) in
+  (bv, {| gregs := fold_left (gregnext bv) (nets nl) (gregs st);
+          gmems := fold_left (gwrite bv) (nets nl) (gmems st) |}).
 
-Fixpoint grun (gs : list gnet) (st : gstate) (inss : list (wid -> Z))
-  : list (wid -> nat -> bool) * gstate :=
+Fixpoint grun (st : gstate) (inss : list (wid -> Z)) : list (wid -> nat -> bool) * gstate :=
   match inss with
   | [] => ([], st)
   | ins :: rest =>
-      let '(bv, st') := gstep gs st ins in
-      let '(bvs, st'') := grun gs st' rest in
+      let '(bv, st') := gstep st ins in
+      let '(bvs, st'') := grun st' rest in
       (bv :: bvs, st'')
   end.
 
